@@ -2,6 +2,7 @@ package sim
 
 import (
 	"context"
+	"runtime"
 	"sort"
 	"sync"
 	"sync/atomic"
@@ -29,6 +30,34 @@ type Sched struct {
 	// quiescent (every task parked or blocked): the place for invariants.
 	AfterStep func()
 	wg        sync.WaitGroup
+	// goroutine id -> task name, for yield points that carry no context
+	// (lock boundaries)
+	byGoID map[uint64]string
+	// Urgent names tasks (timer callbacks) that may be interleaved with other
+	// runnable tasks but must run before simulated time advances.
+	Urgent map[string]bool
+}
+
+func goID() uint64 {
+	var buf [64]byte
+	n := runtime.Stack(buf[:], false)
+	var id uint64
+	for _, c := range buf[len("goroutine "):n] {
+		if c < '0' || c > '9' {
+			break
+		}
+		id = id*10 + uint64(c-'0')
+	}
+	return id
+}
+
+// CurrentTask returns the name of the task started with Go that is running
+// on the calling goroutine, or "" for any other goroutine.
+func (s *Sched) CurrentTask() string {
+	g := goID()
+	s.mu.Lock()
+	defer s.mu.Unlock()
+	return s.byGoID[g]
 }
 
 type waiter struct {
@@ -81,6 +110,13 @@ func (s *Sched) Go(name string, fn func()) {
 	s.mu.Unlock()
 	s.wg.Add(1)
 	go func() {
+		g := goID()
+		s.mu.Lock()
+		if s.byGoID == nil {
+			s.byGoID = map[uint64]string{}
+		}
+		s.byGoID[g] = name
+		s.mu.Unlock()
 		defer s.wg.Done()
 		defer func() {
 			if p := recover(); p != nil {
@@ -214,7 +250,14 @@ func (s *Sched) RunAll() {
 			break
 		}
 		opts := len(s.parked)
-		if s.sleepers > 0 {
+		urgent := false
+		for _, w := range s.parked {
+			if s.Urgent[w.tk] {
+				urgent = true
+			}
+		}
+		// simulated time does not pass while a timer callback waits to run
+		if s.sleepers > 0 && !urgent {
 			opts++
 		}
 		i := s.r.T.Intn(opts)
